@@ -11,7 +11,7 @@ import ast
 from verif_sa.core import Ob, AnalysisError, FileObj
 from verif_sa.facts import call_name, dotted
 from verif_sa.dataflow import expand, all_values
-from .common import floor
+from .common import floor, const_value
 
 ALL_LIB = (("mofun.mofun", None), ("mofun.helpers", None), ("mofun.atoms", None), ("mofun.detect_bonds", None),
            ("mofun.rough_uff", None), ("mofun.cli.mofun_cli", None))
@@ -348,6 +348,26 @@ def G4_numpy_container_pitfalls(repo, clause, scope=ALL_LIB):
                                                   "input is sorted by the same key" if sorted_same else
                                                   "itertools.groupby merges only CONSECUTIVE items with equal keys and the input is not sorted by that key: equal keys that are not adjacent form several groups, and a dict built from them keeps only the last run"),
                               slot="groupby:%s" % fn.qualname, positive=not sorted_same))
+            if nm == "sorted" and c.args and not any(k.arg == "key" for k in c.keywords):
+                # sorting text tokens that are numbers: '10' < '2'
+                src = c.args[0]
+                if isinstance(src, ast.Call) and call_name(src) in ("keys", "list") and (src.args or isinstance(src.func, ast.Attribute)):
+                    src = src.args[0] if src.args else src.func.value
+                if isinstance(src, ast.Name):
+                    key_exprs = [n_.targets[0].slice for n_ in fn.own_nodes() if isinstance(n_, ast.Assign) and len(n_.targets) == 1 and isinstance(n_.targets[0], ast.Subscript)
+                                 and isinstance(n_.targets[0].value, ast.Name) and n_.targets[0].value.id == src.id]
+                    text_keys = []
+                    for ke in key_exprs:
+                        if isinstance(ke, ast.Subscript) and isinstance(ke.value, ast.Name):
+                            for d_ in fn.own_nodes():
+                                if isinstance(d_, ast.Assign) and any(isinstance(t_, ast.Name) and t_.id == ke.value.id for t_ in d_.targets) and isinstance(d_.value, ast.Call) \
+                                        and call_name(d_.value) in ("split", "rsplit"):
+                                    text_keys.append(ke)
+                    if text_keys:
+                        obs.append(Ob("G4", clause, fn, c, False,
+                                      "`%s` in %s sorts keys that are TEXT tokens of a split line (`%s`): numeric ids sort lexicographically ('10' < '2'), so from the tenth entry on the order is not the numeric one" % (
+                                          ast.unparse(c)[:50], fn.qualname, ast.unparse(text_keys[0])),
+                                      slot="text-sort:%s" % fn.qualname, positive=True))
             if nm == "isinstance" and len(c.args) == 2 and isinstance(c.args[1], ast.Name) and c.args[1].id == "int":
                 # which parameter does the tested value come from?
                 x = c.args[0]
@@ -429,4 +449,94 @@ def G6_stale_loop_cache(repo, clause, scope=ALL_LIB):
                                       slot="stale-cache:%s:%s" % (fn.qualname, v), positive=not fresh))
     obs.append(Ob("G6", clause, fns[0], fns[0].node, True, "%d functions in scope, %d inner-loop locals computed from an outer loop variable under a condition" % (len(fns), n),
                   construct="stale loop cache inventory", slot="inventory"))
+    return obs
+
+
+def G7_api_contract_pitfalls(repo, clause, scope=ALL_LIB):
+    """Contracts of library calls and small arithmetic idioms that are wrong only at a boundary:
+    (a) the insertion point returned by bisect_left / bisect_right / np.searchsorted may equal len(list): using it as an index without a bound check
+        fails (or wraps) for values beyond the last entry;
+    (b) k consecutive integers span k - 1: `hi - lo == len(xs)` as a contiguity test accepts a range with one hole;
+    (c) functools.lru_cache / cache on a function hands every caller the SAME (mutable) result object and hides later changes of files or of mutable
+        arguments; a @property that stores a cache on self goes stale when its source arrays are modified in place;
+    (d) a table parameter that is stored on self (possibly a numpy array) is tested for presence by its truth value."""
+    obs = []
+    fns = _scope_fns(repo, scope)
+    counts = {"bisect": 0, "span": 0, "cache": 0, "truth": 0}
+    from .common import norm_guards
+    for fn in fns:
+        # (c) decorators
+        for d in fn.node.decorator_list:
+            nm = dotted(d.func) if isinstance(d, ast.Call) else dotted(d)
+            if nm and nm.split(".")[-1] in ("lru_cache", "cache", "cached_property", "memoize"):
+                counts["cache"] += 1
+                obs.append(Ob("G7", clause, fn, fn.node, False,
+                              "%s is memoised with @%s: every call with equal arguments returns the SAME object (a later in-place edit by one caller is seen by the next), and a file re-written under the same path is never re-read" % (fn.qualname, nm),
+                              construct="@%s def %s" % (nm, fn.name), slot="memoised:%s" % fn.qualname, positive=True))
+        if any((dotted(d) or "") == "property" for d in fn.node.decorator_list) and fn.cls is not None:
+            stores = [n for n in fn.own_nodes() if isinstance(n, (ast.Assign, ast.AugAssign)) and any(
+                isinstance(t, ast.Attribute) and isinstance(t.value, ast.Name) and t.value.id == "self" for t in (n.targets if isinstance(n, ast.Assign) else [n.target]))]
+            counts["cache"] += 1
+            obs.append(Ob("G7", clause, fn, stores[0] if stores else fn.node, not stores,
+                          "property %s %s" % (fn.qualname, "is recomputed from its source arrays on every access" if not stores else
+                                              "STORES `%s` on the object: the cached value survives in-place edits of the arrays it was computed from (retyping an atom, then searching again, still sees the old elements)" % ast.unparse(stores[0])[:50]),
+                          construct=None if stores else "@property def %s" % fn.name, slot="property-cache:%s" % fn.qualname, positive=True))
+        for n in fn.own_nodes():
+            # (a) insertion points used as indices
+            if isinstance(n, ast.Assign) and len(n.targets) == 1 and isinstance(n.targets[0], ast.Name) and isinstance(n.value, ast.Call) \
+                    and call_name(n.value) in ("bisect_left", "bisect_right", "bisect", "searchsorted"):
+                v = n.targets[0].id
+                seq = n.value.args[0] if n.value.args else None
+                uses = [u for u in fn.own_nodes() if isinstance(u, ast.Subscript) and isinstance(u.slice, ast.Name) and u.slice.id == v and isinstance(u.ctx, ast.Load)]
+                for u in uses:
+                    counts["bisect"] += 1
+                    bounded = False
+                    for t, pol, k in norm_guards(fn, u):
+                        if any(isinstance(y, ast.Name) and y.id == v for y in ast.walk(t)) and any(isinstance(y, ast.Call) and call_name(y) == "len" for y in ast.walk(t)):
+                            bounded = True
+                    clipped = any(isinstance(d_, ast.Assign) and any(isinstance(t_, ast.Name) and t_.id == v for t_ in d_.targets) and isinstance(d_.value, ast.Call)
+                                  and call_name(d_.value) in ("min", "clip", "minimum") for d_ in fn.own_nodes())
+                    ok = bounded or clipped
+                    obs.append(Ob("G7", clause, fn, u, ok,
+                                  "`%s` uses the insertion point `%s = %s` as an index %s" % (ast.unparse(u), v, ast.unparse(n.value)[:40],
+                                                                                             "under a bound check" if ok else
+                                                                                             "WITHOUT a bound check: for a value beyond the last entry the insertion point equals len(%s) and the lookup raises IndexError (swallowed by a blanket handler further up, it silently changes the result)" % (ast.unparse(seq) if seq is not None else "the list")),
+                                  slot="insertion-point:%s" % fn.qualname, positive=not ok))
+            # (b) span vs length
+            if isinstance(n, ast.Compare) and len(n.ops) == 1 and isinstance(n.ops[0], (ast.Eq, ast.NotEq)):
+                sides = [n.left, n.comparators[0]]
+                for a, b in (sides, sides[::-1]):
+                    if isinstance(a, ast.BinOp) and isinstance(a.op, ast.Sub) and isinstance(b, ast.Call) and call_name(b) == "len" and b.args:
+                        def end(e):
+                            if isinstance(e, ast.Subscript) and const_value(e.slice) in (0, -1):
+                                return ast.unparse(e.value), const_value(e.slice)
+                            if isinstance(e, ast.Call) and call_name(e) in ("max", "min") and e.args:
+                                return ast.unparse(e.args[0]), call_name(e)
+                            return None, None
+                        (s1, k1), (s2, k2) = end(a.left), end(a.right)
+                        if s1 is not None and s1 == s2 and k1 != k2 and ast.unparse(b.args[0]) == s1:
+                            counts["span"] += 1
+                            obs.append(Ob("G7", clause, fn, n, False,
+                                          "`%s` tests contiguity by comparing the SPAN of %s with its LENGTH: k consecutive integers span k - 1, so this accepts exactly the ranges with one hole (and rejects the contiguous ones)" % (ast.unparse(n), s1),
+                                          slot="span-length:%s" % fn.qualname, positive=True))
+        # (d) stored table parameters tested by truth value
+        stored = set()
+        for n in fn.own_nodes():
+            if isinstance(n, ast.Assign) and isinstance(n.value, ast.Name) and n.value.id in fn.params and any(
+                    isinstance(t, ast.Attribute) and isinstance(t.value, ast.Name) and t.value.id == "self" for t in n.targets):
+                stored.add(n.value.id)
+        for p in sorted(stored):
+            hits = _truth_uses(fn, p)
+            if not hits and not any(isinstance(y, ast.Call) and call_name(y) == "len" and y.args and isinstance(y.args[0], ast.Name) and y.args[0].id == p for y in fn.own_nodes()):
+                continue
+            counts["truth"] += 1
+            obs.append(Ob("G7", clause, fn, hits[0] if hits else fn.node, not hits,
+                          "table parameter `%s` of %s (stored on the object) is tested for presence %s" % (
+                              p, fn.qualname, "by its length" if not hits else
+                              "by its TRUTH VALUE (`%s`): the callers inside the package pass numpy arrays (merged type tables, subsets), for which that raises `truth value of an array is ambiguous`" % ast.unparse(hits[0] if isinstance(hits[0], ast.expr) else hits[0].test)[:50]),
+                          construct=None if hits else "def %s(... %s ...)" % (fn.name, p), slot="table-truth:%s:%s" % (fn.qualname, p), positive=True))
+    obs.append(Ob("G7", clause, fns[0], fns[0].node, True,
+                  "%d functions in scope: %d insertion-point subscripts, %d span-vs-length tests, %d memoisation sites / properties, %d stored table parameters inspected" % (
+                      len(fns), counts["bisect"], counts["span"], counts["cache"], counts["truth"]),
+                  construct="api contract inventory", slot="inventory"))
     return obs
